@@ -73,7 +73,9 @@ C02(r) == /\ Max2(r.b1hi, r.b2hi) >= r.rtlo
 
 C03Vanilla(r) == r.iters = r.T => (r.b1lo <= VanillaEnv(r.T) /\ r.b2lo <= VanillaEnv(r.T))
 C03Preset(r) == (r.iters = r.T /\ ~PresetTrivial(r.T)) => r.rtlo <= PresetEnv(r.T)
-C04(r) == r.iters = r.T => r.rtlo <= SampledEnv(r.T)
+\* at the long budget (small games only) the constant is 4: the envelope with constant 1 is not a theorem
+\* and leaves only a factor 2.4 there (measured), with 4 it leaves about 10
+C04(r) == r.iters = r.T => r.rtlo <= (IF r.T >= 100000 THEN 4 ELSE 1) * SampledEnv(r.T)
 
 \* C03, the trend between the small budget (25) and the large one (2500) of one (game, preset, threads)
 \* series: at the CFR rate the regret shrinks by a factor of ten; demanded: by a factor of two, unless it
